@@ -53,14 +53,34 @@ pub fn c12_check(ck: &mut Checker, sim: &mut Sim, after_boot: bool) {
         }
         match sim.world.by_hash.get(&tip_hash) {
             None => {
-                findings.push((
-                    "tip_not_a_real_block",
-                    format!(
-                        "stored tip #{} {:#x} is no block of any honest chain",
-                        Unpack::<u64>::unpack(&tip.raw().number()),
-                        tip_hash
-                    ),
-                ));
+                // Not a block of the honest chain tree. With the dummy PoW engine anybody can
+                // "mine": a header whose parent is known and whose total difficulty is the
+                // parent's plus its own is a legitimate block of a deviating peer's own chain.
+                let parent_td = sim
+                    .world
+                    .by_hash
+                    .get(&tip.raw().parent_hash())
+                    .map(|id| sim.world.blocks[*id].td.clone())
+                    .or_else(|| ck.attacker_blocks.get(tip.raw().parent_hash().as_slice()).cloned());
+                let own = ckb_types::utilities::compact_to_difficulty(tip.raw().compact_target().unpack());
+                let consistent = parent_td
+                    .as_ref()
+                    .and_then(|p| p.checked_add(&own))
+                    .map(|e| e == td)
+                    .unwrap_or(false);
+                if consistent {
+                    ck.attacker_blocks.insert(tip_hash.as_slice().to_vec(), td.clone());
+                } else {
+                    findings.push((
+                        "tip_not_a_real_block",
+                        format!(
+                            "stored tip #{} {:#x} is no block of any honest chain and its stored total difficulty {:#x} is not its parent's plus its own",
+                            Unpack::<u64>::unpack(&tip.raw().number()),
+                            tip_hash,
+                            td
+                        ),
+                    ));
+                }
             }
             Some(id) => {
                 let true_td = sim.world.blocks[*id].td.clone();
@@ -115,7 +135,7 @@ pub fn c12_check(ck: &mut Checker, sim: &mut Sim, after_boot: bool) {
         }
         // a made-up child of the proven tip, adopted by the child fast path
         let forged_child = ck
-            .cur
+            .last_cur
             .as_ref()
             .map(|(_, t, _)| {
                 !t.honest && t.kind == Kind::SendLastState && (t.note.contains("forged child") || t.note.contains("crafted child"))
@@ -125,12 +145,15 @@ pub fn c12_check(ck: &mut Checker, sim: &mut Sim, after_boot: bool) {
             sim.violate(
                 "C12",
                 "forged_child_of_the_proven_tip_adopted_by_the_fast_path",
-                format!("{} ; {}", detail, ck.cur.as_ref().map(|(_, t, _)| t.note.clone()).unwrap_or_default()),
+                format!("{} ; {}", detail, ck.last_cur.as_ref().map(|(_, t, _)| t.note.clone()).unwrap_or_default()),
             );
             sim.taint = Some("C12/forged_child_of_the_proven_tip_adopted_by_the_fast_path".into());
             continue;
         }
         sim.violate("C12", clause, detail);
+    }
+    if changed && !prev_tip.is_empty() {
+        sim.stat("probe.c12.tip_changes");
     }
     ck.prev_td = Some(td);
     ck.prev_tip = tip_bytes;
